@@ -51,6 +51,16 @@ func boundedBy(L ssa.Value, limit ssa.Value, depth int) (bool, string) {
 	if depth > 4 {
 		return false, "too deep"
 	}
+	// n = min(n, limit): at most the limit
+	if call, ok := L.(*ssa.Call); ok {
+		if bi, ok := call.Call.Value.(*ssa.Builtin); ok && bi.Name() == "min" {
+			for _, a := range call.Call.Args {
+				if a == limit {
+					return true, ""
+				}
+			}
+		}
+	}
 	phi, ok := L.(*ssa.Phi)
 	if !ok {
 		return false, fmt.Sprintf("length %s is not clamped (not a merge of clamped values)", L.Name())
@@ -211,8 +221,8 @@ func rLim2(l *limCtx) {
 						bad = append(bad, "stored to "+x.Addr.String())
 					}
 				case *ssa.Call:
-					if b, ok := x.Call.Value.(*ssa.Builtin); ok && (b.Name() == "copy" || b.Name() == "len" || b.Name() == "cap") {
-						continue
+					if b, ok := x.Call.Value.(*ssa.Builtin); ok && (b.Name() == "copy" || b.Name() == "len" || b.Name() == "cap" || b.Name() == "min" || b.Name() == "max") {
+						continue // min / max of sizes are sizes
 					}
 					bad = append(bad, "passed to "+x.Call.Value.String())
 				case *ssa.UnOp:
@@ -447,12 +457,46 @@ func rLim4(l *limCtx) {
 			if _, ok := core.LoadOfField(cmp.X, l.trackpos); !ok {
 				continue
 			}
-			if mul, ok := cmp.Y.(*ssa.BinOp); ok && mul.Op == token.MUL {
-				if _, ok := core.LoadOfField(mul.X, trackcount); ok {
-					if k, ok := core.IntConst(mul.Y); ok {
-						K = k
+			// runtrackcount*K — written in place, kept in a local, or computed by a one-line helper
+			var mulOf func(v ssa.Value, depth int) (int64, bool)
+			mulOf = func(v ssa.Value, depth int) (int64, bool) {
+				if depth > 3 {
+					return 0, false
+				}
+				switch x := v.(type) {
+				case *ssa.BinOp:
+					if x.Op == token.MUL {
+						for _, pr := range [][2]ssa.Value{{x.X, x.Y}, {x.Y, x.X}} {
+							if _, ok := core.LoadOfField(pr[0], trackcount); ok {
+								if k, ok := core.IntConst(pr[1]); ok {
+									return k, true
+								}
+							}
+						}
+					}
+				case *ssa.Call:
+					if cal := x.Call.StaticCallee(); cal != nil && core.InModule(cal) {
+						var got int64
+						n := 0
+						for _, cb := range cal.Blocks {
+							if r, ok := cb.Instrs[len(cb.Instrs)-1].(*ssa.Return); ok && len(r.Results) == 1 {
+								k, ok := mulOf(r.Results[0], depth+1)
+								if !ok {
+									return 0, false
+								}
+								got = k
+								n++
+							}
+						}
+						if n == 1 {
+							return got, true
+						}
 					}
 				}
+				return 0, false
+			}
+			if k, ok := mulOf(cmp.Y, 0); ok {
+				K = k
 			}
 		}
 	}
